@@ -328,7 +328,22 @@ fn check(case: &Case) -> Verdict {
             return Verdict::fail(format!("C10/analysis/panic/{}/{scale_class}", if case.config.upper_dir.is_none() { "face_detect" } else { "face_given" }), format!("try_analyze panicked ({class}, chord {:.4}, {} vertices, closed {}): {m}", s.chord, truth.points.len(), truth.closed));
         }
         Ok(Err(_e)) => {
+            if std::env::var("VERIF_DEBUG").is_ok() && !matches!(case.config.te, EdgeMethod::RansacRadius) {
+                eprintln!("C10 err: {} | le {:?} te {:?} camber {:.3} chord {:.3} closed {} orient_dir {} n_side {} r_le {:.4} r_te {:.4} tmax {:.3} dir_off {:.2}", _e, case.config.le, case.config.te, s.camber, s.chord, truth.closed, case.config.orient_by_direction, s.n_side, s.r_le, s.r_te, s.t_max, case.config.dir_off);
+            }
+            // The section is, by construction, one every edge-location method applies to.  Two methods do give up on some of
+            // these sections in the unchanged library (RANSAC as trailing-edge locator regularly, the constant-radius
+            // search on strongly cambered sections occasionally); with any other combination an error means a section
+            // that can be analysed was rejected.
+            let fragile = |m: EdgeMethod| matches!(m, EdgeMethod::ConstRadius | EdgeMethod::RansacRadius);
+            if !fragile(case.config.le) && !fragile(case.config.te) {
+                return Verdict::fail(format!("C10/analysis/rejected_applicable_section/{:?}+{:?}", case.config.le, case.config.te), format!("try_analyze returned an error for a generated section (chord {:.4}, camber {:.3}, {} vertices, closed {}): {_e}", s.chord, s.camber, truth.points.len(), truth.closed));
+            }
             cx.label("err");
+            cx.label(method_label("err_le", case.config.le));
+            cx.label(method_label("err_te", case.config.te));
+            cx.label_if(s.camber > 0.12, "err_strong_camber");
+            cx.label_if(!truth.closed, "err_open");
             return cx.pass();
         }
         Ok(Ok(g)) => g,
